@@ -403,6 +403,27 @@ class SpecLib:
         raise Unsupported("`in` on %r" % (container,))
 
     def compare(self, ex, op, a, b):
+        # ordering of str / bytes values: lexicographic by code point, modelled when one side is concrete
+        if isinstance(a, VSeq) and isinstance(b, VSeq) and a.kind == b.kind and a.kind in ("str", "bytes") \
+                and isinstance(op, (ast.Lt, ast.LtE, ast.Gt, ast.GtE)):
+            if isinstance(op, (ast.Gt, ast.GtE)):
+                a, b = b, a
+                op = ast.Lt() if isinstance(op, ast.Gt) else ast.LtE()
+            strict = isinstance(op, ast.Lt)
+
+            def conc_vs_sym(c, x, k, strict):      # c[k:] < / <= x[k:]
+                if k == len(c):
+                    return z3.Length(x) > k if strict else z3.BoolVal(True)
+                ck = c[k] if isinstance(c[k], int) else ord(c[k])
+                return z3.And(z3.Length(x) > k, z3.Or(x[k] > ck, z3.And(x[k] == ck, conc_vs_sym(c, x, k + 1, strict))))
+            if a.pyval is not None and b.pyval is not None:
+                return z3.BoolVal(a.pyval < b.pyval if strict else a.pyval <= b.pyval)
+            if a.pyval is not None and len(a.pyval) <= 8:
+                self.use("str/bytes ordering: lexicographic by code point")
+                return conc_vs_sym(a.pyval, b.t, 0, strict)
+            if b.pyval is not None and len(b.pyval) <= 8:
+                self.use("str/bytes ordering: lexicographic by code point")
+                return z3.Not(conc_vs_sym(b.pyval, a.t, 0, not strict))
         return None
 
     def binop(self, ex, op, a, b):
